@@ -128,6 +128,23 @@ def check(ctx):
                     C.issue('benchmark-raised-on-column-array', 'oracle', dict(how='bench', name=name, x=x, column=True), error=repr(ex)[:100])
                 if yc is not None and not close(yc, y) and not (yc != yc and y != y):
                     C.issue('not-the-documented-formula', 'oracle', dict(how='bench', name=name, x=x, column=True), got=yc, reference=y)
+                # a point with whole-number coordinates written as integers (an integer array / a nested integer column):
+                # the same point, the same value
+                if all(float(v).is_integer() and abs(v) < 1e6 for v in x):
+                    for shape_ in ('flat', 'column'):
+                        xi = np.array([int(v) for v in x]) if shape_ == 'flat' else np.array([[int(v)] for v in x])
+                        try:
+                            yi = float(np.asarray(fn(xi)).reshape(-1)[0])
+                        except Exception as ex:
+                            yi = None
+                            try:
+                                fn(np.array(xi, dtype=float))
+                            except Exception:
+                                pass
+                            else:
+                                C.issue('benchmark-raised-on-integer-array', 'oracle', dict(how='bench', name=name, x=x, integer=shape_), error=repr(ex)[:100])
+                        if yi is not None and not close(yi, y) and not (yi != yi and y != y):
+                            C.issue('not-the-documented-formula', 'oracle', dict(how='bench', name=name, x=x, integer=shape_), got=yi, reference=y)
                 rp = dict(how='bench', name=name, x=x)
                 if o in ('bad-op', 'error'):
                     C.issue('benchmark-mismatch', 'correspondence', rp, model=o)
@@ -253,6 +270,14 @@ def replay(prop, payload):
         float(np.asarray(getattr(bm, name)(np.array(x, dtype=float))).reshape(-1)[0])
     except Exception:
         return True
+    if payload.get('integer'):
+        xi = np.array([int(v) for v in x]) if payload['integer'] == 'flat' else np.array([[int(v)] for v in x])
+        yf = float(np.asarray(getattr(bm, name)(np.array(x, dtype=float))).reshape(-1)[0])
+        try:
+            yi = float(np.asarray(getattr(bm, name)(xi)).reshape(-1)[0])
+        except Exception:
+            return True
+        return not close(yi, yf) and not (yi != yi and yf != yf)
     xa_ = np.array(x, dtype=float).reshape(-1, 1) if payload.get('column') else np.array(x, dtype=float)
     y = float(np.asarray(getattr(bm, name)(xa_)).reshape(-1)[0])
     try:
